@@ -7,6 +7,12 @@
    (2) EXACTLY against the faithful model AlgNum.v of the library's own algorithms wherever the result is a function of
        the printed operand structs (refine, sgn / cmp_* with the refined operand, cmp, neg, inv, construct, floor,
        ceiling, is_integer, is_rational, to_rational, the dyadic behind to_double, midpoint).
+   The verdict of layer (1) is the VERIFIED acceptance test Model.accept_op (coq/AlgNumCheck.v, extracted): for every
+   result / observation / re-read operand the printed structs and scalars are handed to accept_op, and `CHECK ok` is only
+   answered when it said `true` every time.  AlgNumCheckProofs.v (C07_accept_<op>_sound, C07_accept_op_sound) proves
+   that whatever accept_op accepts is the mathematically right answer in every real closed field.  The older hand-written
+   comparison with the memoised reference arithmetic rv_* still runs first (it gives the detailed messages and tells a
+   fuel-out from a wrong answer); both have to accept.
    Answer: CHECK ok | CHECK fail <step>: <why> | FUEL. *)
 open Model
 open Io
@@ -71,6 +77,33 @@ let same what (c : rnum) (r : rnum) =
   if not (rv_eqb chain c r) then
     fail "%s: implementation gives %s, exact value is %s" what (string_of_rnum c) (string_of_rnum r)
 let sgi x = sgn_of_z x
+
+(* ---- the verified acceptance test.  accept_op is a pure function of (operation, operand structs, answer); histories
+   repeat calls (an operand struct re-read after a call, cmp in both orders twice), so its verdicts are memoised by the
+   marshalled triple. *)
+let acc_tbl : (string, bool) Hashtbl.t = Hashtbl.create 1024
+let accepted (op : c07_op) (args : rnum list) (res : c07_result) : bool =
+  let k = Marshal.to_string (op, args, res) [Marshal.No_sharing] in
+  match Hashtbl.find_opt acc_tbl k with
+  | Some b -> b
+  | None ->
+    let b = accept_op fuel op args res in
+    if Hashtbl.length acc_tbl > 20000 then Hashtbl.reset acc_tbl;
+    Hashtbl.add acc_tbl k b; b
+let vtiming = (try Sys.getenv "C07_TIMING" = "1" with Not_found -> false)
+let verified what op args res =
+  let t0 = if vtiming then Sys.time () else 0.0 in
+  let ok = accepted op args res in
+  if vtiming && Sys.time () -. t0 > 0.2 then prerr_endline (Printf.sprintf "  accept_op %.2fs %s" (Sys.time () -. t0) what);
+  if not ok then
+    fail "%s: the verified checker (AlgNumCheck.accept_op) rejects the implementation's answer" what
+(* a printed struct against the reference result of the memoised arithmetic rv_*: hand-written comparison only (the
+   verified verdict on a result is accept_op with the operation itself) *)
+let same_ref = same
+(* a printed struct against the struct the pool holds for the slot (operand re-read before / after a call, copy, final
+   dump, constructed operand against the generator's token): hand-written comparison, then the verified one *)
+let same what (c : rnum) (r : rnum) = same_ref what c r; verified what KSame [r] (VNum c)
+let vint i = VInt (z_of_int i)
 let gcdf = an_ref_gcd   (* the instance for which C07_cmp_full is proved *)
 
 (* exact-model comparison of struct texts *)
@@ -164,13 +197,15 @@ let run_case (toks : string list) (cout : string list) : string =
         let k = ai 1 and x = get (ai 2) and y = get (ai 3) in
         if ct = "skip" then ()
         else if ct = "undef" then begin
-          if not (op = "div" && sgi (rn_sgn y) = 0) then fail "implementation reports an undefined operation but the divisor is not zero"
+          if not (op = "div" && sgi (rn_sgn y) = 0) then fail "implementation reports an undefined operation but the divisor is not zero";
+          verified "div (undefined)" KDiv [x; y] VUndef
         end else begin
           if op = "div" && sgi (rn_sgn y) = 0 then fail "division by an exact zero was not detected (sgn wrong)";
           let r = some (match op with
             | "add" -> rv_add chain fuel x y | "sub" -> rv_sub chain fuel x y | "mul" -> rv_mul chain fuel x y | _ -> rv_div chain fuel x y) in
           let c = check_struct cf.(0) in
-          same op c r;
+          same_ref op c r;
+          verified op (match op with "add" -> KAdd | "sub" -> KSub | "mul" -> KMul | _ -> KDiv) [x; y] (VNum c);
           if ai 2 <> k then sync (op ^ ": first operand after") cf.(1) (ai 2);
           if ai 3 <> k then sync (op ^ ": second operand after") cf.(2) (ai 3);
           pool.(k) <- Some c
@@ -179,18 +214,23 @@ let run_case (toks : string list) (cout : string list) : string =
         let k = ai 1 and i = ai 2 in
         operand_is op cf.(0) i;
         let c = check_struct cf.(1) in
-        same op c (rv_neg (get i));
+        same_ref op c (rv_neg (get i));
+        verified op KNeg [get i] (VNum c);
         (match an_neg fuel (anum_of_token cf.(0)) with Some m -> exact "neg" m cf.(1) | None -> raise Fuel);
         pool.(k) <- Some c
       | "inv" ->
         let k = ai 1 and i = ai 2 in
         let x = get i in
-        if ct = "undef" then (if sgi (rn_sgn x) <> 0 then fail "implementation says the operand is zero, it is not")
+        if ct = "undef" then begin
+          if sgi (rn_sgn x) <> 0 then fail "implementation says the operand is zero, it is not";
+          verified "inv (undefined)" KInv [x] VUndef
+        end
         else begin
           if sgi (rn_sgn x) = 0 then fail "inverse of an exact zero was not detected (sgn wrong)";
           operand_is op cf.(0) i;
           let c = check_struct cf.(1) in
-          same op c (some (rv_inv fuel x));
+          same_ref op c (some (rv_inv fuel x));
+          verified op KInv [get i] (VNum c);
           (match an_inv fuel (anum_of_token cf.(0)) with
            | Some (m, a') -> exact "inv" m cf.(1); if i <> k then exact "inv (operand after)" a' cf.(2)
            | None -> raise Fuel);
@@ -201,19 +241,25 @@ let run_case (toks : string list) (cout : string list) : string =
         let k = ai 1 and x = get (ai 2) and e = ai 3 in
         if ct = "skip" then () else begin
           let c = check_struct cf.(0) in
-          same op c (some (rv_pow chain fuel x (nat_of_int e)));
+          same_ref op c (some (rv_pow chain fuel x (nat_of_int e)));
+          verified op (KPow (nat_of_int e)) [x] (VNum c);
           if ai 2 <> k then sync "pow: operand after" cf.(1) (ai 2);
           pool.(k) <- Some c
         end
       | "root" ->
         let k = ai 1 and x = get (ai 2) and e = ai 3 in
         if ct = "skip" then ()
-        else if ct = "undef" then (if not (e = 0 || sgi (rn_sgn x) < 0) then fail "implementation says the operand is negative, it is not")
+        else if ct = "undef" then begin
+          if not (e = 0 || sgi (rn_sgn x) < 0) then fail "implementation says the operand is negative, it is not";
+          verified "root (undefined)" (KRoot (nat_of_int e)) [x] VUndef
+        end
         else begin
           if sgi (rn_sgn x) < 0 then fail "root of a negative number was not detected (sgn wrong)";
           let c = check_struct cf.(0) in
           if sgi (rn_sgn c) < 0 then fail "positive_root returned a negative number %s" (string_of_rnum c);
-          same "root: (result)^n vs operand" (some (rv_pow chain fuel c (nat_of_int e))) x;
+          (let p = some (rv_pow chain fuel c (nat_of_int e)) in
+           if not (rv_eqb chain p x) then fail "root: (result)^n = %s, operand %s" (string_of_rnum p) (string_of_rnum x));
+          verified op (KRoot (nat_of_int e)) [x] (VNum c);
           if ai 2 <> k then sync "root: operand after" cf.(1) (ai 2);
           pool.(k) <- Some c
         end
@@ -239,6 +285,7 @@ let run_case (toks : string list) (cout : string list) : string =
         operand_is op cf.(0) i;
         let s = int_of_string cf.(1) in
         if s <> sgi (rn_sgn (get i)) then fail "sgn = %d, exact sign %d" s (sgi (rn_sgn (get i)));
+        verified op KSgn [get i] (vint s);
         sync "sgn: refined operand" cf.(2) i;
         (match an_sgn fuel (anum_of_token cf.(0)) with
          | Some (c, a') -> if sgi c <> s then fail "sgn: model of the algorithm gives %d" (sgi c); exact "sgn (operand after)" a' cf.(2)
@@ -249,6 +296,7 @@ let run_case (toks : string list) (cout : string list) : string =
         let s = int_of_string cf.(2) in
         let e = sgi (some (rv_cmp chain fuel (get i) (get j))) in
         if s <> e then fail "cmp = %d, exact comparison %d" s e;
+        verified op KCmp [get i; get j] (vint s);
         sync "cmp: first operand after" cf.(3) i;
         sync "cmp: second operand after" cf.(4) j;
         if i <> j then
@@ -262,12 +310,13 @@ let run_case (toks : string list) (cout : string list) : string =
         operand_is op cf.(0) i;
         let s = int_of_string cf.(2) in
         let a = anum_of_token cf.(0) in
-        let (q, mres) = (match op with
-          | "cmpz" -> let z = z_of_string cf.(1) in ((z, z_of_int 1), an_cmp_integer fuel a z)
-          | "cmpd" -> let d = dy_of_string cf.(1) in (q_from_dyadic d, an_cmp_dyadic fuel a d)
-          | _ -> let q = rat_of_string cf.(1) in (q, an_cmp_rational fuel a q)) in
+        let (q, mres, vop) = (match op with
+          | "cmpz" -> let z = z_of_string cf.(1) in ((z, z_of_int 1), an_cmp_integer fuel a z, KCmpZ z)
+          | "cmpd" -> let d = dy_of_string cf.(1) in (q_from_dyadic d, an_cmp_dyadic fuel a d, KCmpD d)
+          | _ -> let q = rat_of_string cf.(1) in (q, an_cmp_rational fuel a q, KCmpQ q)) in
         let e = sgi (rn_cmp_q (get i) q) in
         if s <> e then fail "%s with %s = %d, exact comparison %d" op cf.(1) s e;
+        verified op vop [get i] (vint s);
         sync (op ^ ": refined operand") cf.(3) i;
         (match mres with
          | Some (c, a') -> if sgi c <> s then fail "%s: model of the algorithm gives %d" op (sgi c); exact (op ^ " (operand after)") a' cf.(3)
@@ -278,6 +327,7 @@ let run_case (toks : string list) (cout : string list) : string =
         let z = z_of_string cf.(1) in
         let e = some (if op = "floor" then rn_floor fuel (get i) else rn_ceiling fuel (get i)) in
         if z <> e then fail "%s = %s, exact %s" op cf.(1) (string_of_z e);
+        verified op (if op = "floor" then KFloor else KCeil) [get i] (VInt z);
         let a = anum_of_token cf.(0) in
         if (if op = "floor" then an_floor a else an_ceiling a) <> z then fail "%s: model of the algorithm differs" op
       | "isint" ->
@@ -286,12 +336,14 @@ let run_case (toks : string list) (cout : string list) : string =
         let b = (cf.(1) = "1") in
         let e = some (rn_is_integer fuel (get i)) in
         if b <> e then fail "is_integer = %b, exact %b" b e;
+        verified op KIsInt [get i] (VBool b);
         if an_is_integer (anum_of_token cf.(0)) <> b then fail "is_integer: model of the algorithm differs"
       | "israt" ->
         let i = ai 1 in
         operand_is op cf.(0) i;
         let b = (cf.(1) = "1") in
         if b && not (some (rn_is_rational fuel (get i))) then fail "is_rational answered true for an irrational number";
+        verified op KIsRat [get i] (VBool b);
         if an_is_rational (anum_of_token cf.(0)) <> b then fail "is_rational: model of the algorithm differs"
       | "torat" ->
         let i = ai 1 in
@@ -302,6 +354,7 @@ let run_case (toks : string list) (cout : string list) : string =
         if an_is_rational a then begin
           if sgi (rn_cmp_q (get i) q) <> 0 then fail "to_rational of a number the library knows to be rational gives %s" cf.(1)
         end else if not (within (get i) q (two_m 100)) then fail "to_rational %s is further than 2^-100 from the number" cf.(1);
+        verified op (if an_is_rational a then KToRat else KApprox (two_m 100)) [get i] (VRat q);
         if an_to_rational a <> q then fail "to_rational: model of the algorithm gives %s" (string_of_q (an_to_rational a))
       | "todbl" ->
         let i = ai 1 in
@@ -312,6 +365,7 @@ let run_case (toks : string list) (cout : string list) : string =
            let q = q_of_mant_exp (ZA.of_string m) (int_of_string e) in
            let eps = q_add (two_m 99) (q_div_2exp (q_abs q) (n_of_int 51)) in
            if not (within (get i) q eps) then fail "to_double %s*2^%s is further than 2^-99 + 2^-51 |d| from the number" m e;
+           verified op (KApprox eps) [get i] (VRat q);
            let (mm, me) = double_of_dyadic_trunc (an_to_double_dyadic a) in
            if q_of_mant_exp mm me <> q then fail "to_double: model of the algorithm gives %s*2^%d" (ZA.to_string mm) me
          | _ -> fail "to_double returned %s" cf.(1))
@@ -323,7 +377,8 @@ let run_case (toks : string list) (cout : string list) : string =
         if an_dyadic_midpoint a <> d then fail "dyadic midpoint: model gives %s" (string_of_dy (an_dyadic_midpoint a));
         if string_of_q (q_from_dyadic d) <> cf.(2) then fail "rational midpoint %s differs from the dyadic one" cf.(2);
         let w = q_sub (q_from_dyadic a.an_b) (q_from_dyadic a.an_a) in
-        if not (within (get i) (q_from_dyadic d) w) then fail "midpoint is not within the interval width of the number"
+        if not (within (get i) (q_from_dyadic d) w) then fail "midpoint is not within the interval width of the number";
+        verified op (KApprox w) [get i] (VRat (q_from_dyadic d))
       | _ -> fail "unknown step"
     ) (List.combine steps csteps);
     (* ---- final dump: every slot still denotes its number (operands are refined in place through const pointers) *)
